@@ -21,6 +21,14 @@ TRUSTED = [
 ASSUME = ['paths contain no NUL character',
           'the -l language reaches the checker as cli.main() prepares it (parse, fix_codes, remove_encoding, remove_nonlinguistic_modifier)']
 
+# the text of ling._language_regexp the scanner of Model/Ling.v was written against
+PATTERN = """
+^       ( [a-z]{2,} )
+(?:  _  ( [A-Z]{2,} ) )?
+(?: [.] ( [a-zA-Z0-9+-]+ ) )?
+(?:  @  ( [a-z]+) )?
+$"""
+
 ALPHA = ['a', 'b', 'A', 'B', '_', '.', '@', '1', '-', '\n', 'é']
 LOWER = 'abcdefghijklmnopqrstuvwxyz'
 UPPER = LOWER.upper()
@@ -534,7 +542,9 @@ def oracle_check_batch(payloads):
         try:
             tags_, lang = run_check(payload)
         except Exception as e:  # noqa
-            out.append(('check-crash', payload, 'check_language raised ' + type(e).__name__, None))
+            base = payload[1].rsplit('/', 1)[-1]
+            d16 = (type(e) is AssertionError and payload[0] is None and base.endswith('.po') and set(base[:-2]) == {'.'})
+            out.append(('check-crash', payload, 'check_language raised ' + type(e).__name__, 'D16' if d16 else None))
             continue
         bad = [t for t in tags_ if t.startswith('other:')]
         if bad:
@@ -803,8 +813,21 @@ def check(ctx):
     build = common.coq_build()
     aud = common.audit(ctx.id, coqchk=not ctx.quick())
     maxlen = 5 if ctx.quick() else 6
+    from lib import ling
+    import re
+    if ling._language_regexp.pattern != PATTERN or ling._language_regexp.flags != (re.VERBOSE | re.UNICODE):
+        # not a violation by itself: the edited pattern is checked with the larger bound
+        ctx.notes.append('ling._language_regexp differs from the text the scanner was written against: %r' % ling._language_regexp.pattern)
+        maxlen = 6
     # 1. parse / print: small scope + structured + ISO codes
-    strings = sorted(set(ss_strings(maxlen)) | set(locale_strings(ctx)) | set(iso_strings()))
+    strings = set(ss_strings(maxlen)) | set(locale_strings(ctx)) | set(iso_strings())
+    if not ctx.quick():
+        # longer names over one representative per class
+        red = ['a', 'A', '_', '.', '@', '\n']
+        for k in (7, 8):
+            strings.update(''.join(t) for t in itertools.product(red, repeat=k))
+        ctx.notes.append('parse/str: additionally every string of length 7 and 8 over %r' % ''.join(red))
+    strings = sorted(strings)
     ctx.notes.append('parse/str: every string of length <= %d over %r plus %d structured names and ISO codes' % (maxlen, ''.join(ALPHA), len(strings)))
     run_stream(ctx, 'lparse', 'impl_parse', strings, lambda s: 'lparse ' + enc_str(s), 'parse')
     zs = [s for s in strings if len(s) <= maxlen - 1]
